@@ -713,7 +713,7 @@ PROFILE = {'n_rps': 8, 'views_p': 0.25}
 
 def run(chk):
     if not getattr(chk, 'no_lean', False):
-        chk.lean_stage(META['lean_module'], exe=True)
+        chk.lean_stage([META['lean_module'], 'Placement.Props.C11'], exe=True)
     quick = chk.tier == 'quick'
     n_cases = 300 if quick else 3000
     nops = 40
